@@ -499,7 +499,7 @@ impl VtCtx {
         ms.br.c0 = c0;
         ms.br.c1 = c1;
         ms.api_id = api_id;
-        let recording = !ms.noop;
+        let recording = !ms.noop && !ms.items.is_empty();
         let idx = Self::push_span(&mut w, ms, span);
         if !props.is_empty() {
             let t = w.t;
@@ -658,6 +658,10 @@ impl VtCtx {
                     if !w.h.spans[*p].noop {
                         ms.items.extend(Self::issue(&w, *p));
                     }
+                }
+                // a span without any recording parent belongs to no trace: it is a no-op span
+                if ms.items.is_empty() {
+                    ms.noop = true;
                 }
             }
         }
@@ -1119,7 +1123,7 @@ impl VtCtx {
                 let mut w = self.w();
                 let t1 = w.tick();
                 w.spans[idx] = Slot::Live(span);
-                let recording = !w.h.spans[idx].noop;
+                let recording = !w.h.spans[idx].noop && !w.h.spans[idx].items.is_empty();
                 w.h.closures.push(ClosureCall {
                     api: "Span::add_properties",
                     recording,
@@ -2216,11 +2220,7 @@ pub fn run_case(prog: &Program, opts: &ExecOpts) -> Hist {
             });
         }
         match opts.mode {
-            Mode::Api => {
-                if opts.reporter_ready {
-                    fastrace::flush()
-                }
-            }
+            Mode::Api => fastrace::flush(),
             Mode::Sched => {
                 #[cfg(fastrace_verif)]
                 fastrace::verif::run_collector_cycle();
@@ -2365,11 +2365,7 @@ fn collector_main(case: &Arc<Case>, id: usize) {
             w.h.cycles.len() - 1
         };
         match case.opts.mode {
-            Mode::Api => {
-                if case.opts.reporter_ready {
-                    fastrace::flush();
-                }
-            }
+            Mode::Api => fastrace::flush(),
             Mode::Sched => {
                 #[cfg(fastrace_verif)]
                 fastrace::verif::run_collector_cycle();
